@@ -138,7 +138,7 @@ def key_selector(kind):
             ident = ids[0]
         for pi, (s, v) in enumerate(r.call(E.VObj(RING, 'ring'), [ident])):
             y = s.ghost.get('yielded_value')
-            if isinstance(v, E.Raise) and v.exc not in ('BlockException',):
+            if isinstance(v, E.Raise) and v.exc not in ('BlockException', 'BlockBaseException'):
                 if kind == 'message':
                     r.oblige(s, 'nothing-selected-only-if-no-issuer-is-in-the-ring/p%d' % pi, z3.Not(z3.Or(*[INRING(x.z) for x in ids])), v.where)
                 else:
